@@ -424,7 +424,8 @@ func b2i(b bool) int {
 //@   requires c.ssaBuilder != nil && c.m != nil && int(typeIndex) < len(c.m.TypeSection) && len(c.loweringState.values) >= 1 && len(c.loweringState.values)-1 >= len(c.m.TypeSection[typeIndex].Params)
 //@   ensures[table-index-checked] ssa.ExitsWith(wazevoapi.ExitCodeTableOutOfBounds) == old(ssa.ExitsWith(wazevoapi.ExitCodeTableOutOfBounds))+1 && ssa.ExitCmpCond(wazevoapi.ExitCodeTableOutOfBounds) == ssa.IntegerCmpCondUnsignedGreaterThanOrEqual && ssa.ExitCmpX(wazevoapi.ExitCodeTableOutOfBounds) == old(stackAt(c, 0))
 //@   ensures[null-entry-exits] ssa.ExitsWith(wazevoapi.ExitCodeIndirectCallNullPointer) == old(ssa.ExitsWith(wazevoapi.ExitCodeIndirectCallNullPointer))+1 && ssa.ExitGuardedByCmp(wazevoapi.ExitCodeIndirectCallNullPointer) && ssa.ExitCmpCond(wazevoapi.ExitCodeIndirectCallNullPointer) == ssa.IntegerCmpCondEqual && ssa.IsLoaded(ssa.ExitCmpX(wazevoapi.ExitCodeIndirectCallNullPointer)) && ssa.LoadedAt(ssa.ExitCmpX(wazevoapi.ExitCodeIndirectCallNullPointer)) == 0 && int(ssa.LoadedFrom(ssa.ExitCmpX(wazevoapi.ExitCodeIndirectCallNullPointer))) == gg("tblElemAddr") && verif_ghost_map("M:isConst", uint64(ssa.ExitCmpY(wazevoapi.ExitCodeIndirectCallNullPointer))) == 1 && verif_ghost_map("M:constVal", uint64(ssa.ExitCmpY(wazevoapi.ExitCodeIndirectCallNullPointer))) == 0
-//@   ensures[type-mismatch-exits] ssa.ExitsWith(wazevoapi.ExitCodeIndirectCallTypeMismatch) == old(ssa.ExitsWith(wazevoapi.ExitCodeIndirectCallTypeMismatch))+1 && ssa.ExitGuardedByCmp(wazevoapi.ExitCodeIndirectCallTypeMismatch) && ssa.ExitCmpCond(wazevoapi.ExitCodeIndirectCallTypeMismatch) == ssa.IntegerCmpCondNotEqual && ssa.IsLoaded(ssa.ExitCmpX(wazevoapi.ExitCodeIndirectCallTypeMismatch)) && ssa.LoadedAt(ssa.ExitCmpX(wazevoapi.ExitCodeIndirectCallTypeMismatch)) == wazevoapi.FunctionInstanceTypeIDOffset && ssa.LoadedFrom(ssa.ExitCmpX(wazevoapi.ExitCodeIndirectCallTypeMismatch)) == ssa.ExitCmpX(wazevoapi.ExitCodeIndirectCallNullPointer)
+//@   ensures[type-mismatch-exits] ssa.ExitsWith(wazevoapi.ExitCodeIndirectCallTypeMismatch) == old(ssa.ExitsWith(wazevoapi.ExitCodeIndirectCallTypeMismatch))+1 && ssa.ExitGuardedByCmp(wazevoapi.ExitCodeIndirectCallTypeMismatch) && ssa.ExitCmpCond(wazevoapi.ExitCodeIndirectCallTypeMismatch) == ssa.IntegerCmpCondNotEqual
+//@   ensures[type-id-of-the-checked-entry] ssa.IsLoaded(ssa.ExitCmpX(wazevoapi.ExitCodeIndirectCallTypeMismatch)) && ssa.LoadedAt(ssa.ExitCmpX(wazevoapi.ExitCodeIndirectCallTypeMismatch)) == wazevoapi.FunctionInstanceTypeIDOffset && ssa.LoadedFrom(ssa.ExitCmpX(wazevoapi.ExitCodeIndirectCallTypeMismatch)) == ssa.ExitCmpX(wazevoapi.ExitCodeIndirectCallNullPointer)
 //@   ensures[expected-type-id-of-the-immediate] ssa.IsLoaded(ssa.ExitCmpY(wazevoapi.ExitCodeIndirectCallTypeMismatch)) && ssa.LoadedAt(ssa.ExitCmpY(wazevoapi.ExitCodeIndirectCallTypeMismatch)) == uint64(typeIndex*4) && ssa.IsLoaded(ssa.LoadedFrom(ssa.ExitCmpY(wazevoapi.ExitCodeIndirectCallTypeMismatch))) && ssa.LoadedFrom(ssa.LoadedFrom(ssa.ExitCmpY(wazevoapi.ExitCodeIndirectCallTypeMismatch))) == c.moduleCtxPtrValue && ssa.LoadedAt(ssa.LoadedFrom(ssa.ExitCmpY(wazevoapi.ExitCodeIndirectCallTypeMismatch))) == uint64(c.offset.TypeIDs1stElement.U32())
 //@   ensures[calls-the-executable-of-the-checked-entry] ssa.IsLoaded(r0) && ssa.LoadedAt(r0) == wazevoapi.FunctionInstanceExecutableOffset && ssa.LoadedFrom(r0) == ssa.ExitCmpX(wazevoapi.ExitCodeIndirectCallNullPointer)
 //@   modifies ghost("*"), ghost("H:appendOff"), ghost("H:appendLen"), c.loweringState.values
